@@ -540,7 +540,9 @@ def rules(tier):
             # C09-ca: os._exit(0) after main(): the buffered tail of the guess stream is never written
             ('C09.R10', _shared_rule('plumbing', 'no_unflushed_exit')),
             # C09-da: _load_ngrams with errors='surrogateescape' - unprintable Markov guesses are counted against --limit
-            ('C09.R11', _shared_rule('plumbing', 'decode_error_policy'))]
+            ('C09.R11', _shared_rule('plumbing', 'decode_error_policy')),
+            # create_guesses hands the limit on unchanged
+            ('C09.R12', _shared_rule('plumbing', 'generator_glue'))]
 
 
 META = {
